@@ -91,12 +91,16 @@ func (c *wsConn) tryDelete(s *Subscription) {
 		return gcStateDelete
 	})
 
+	// Dispose first: a disposed subscription gives back the sent parent
+	// counts of its references, which Unsend then resets to zero.
 	for rid, ref := range refs {
-		switch ref.state {
-		case gcStateDelete:
+		if ref.state == gcStateDelete {
 			ref.sub.Dispose()
 			delete(c.subs, rid)
-		case gcStateUnsend:
+		}
+	}
+	for _, ref := range refs {
+		if ref.state == gcStateUnsend {
 			ref.sub.Unsend()
 		}
 	}
